@@ -31,8 +31,8 @@ SCHEDULES_Q = ["ctor", (1, 1, 1, 1), (2, 2), (1, 3), ("add", 2)]
 
 def schedules(n, tier):
     if tier == "quick":
-        return ["ctor", (1,) * n, (2, n - 2), (1, n - 1), ("add", 2), ("add", 0)]
-    return ["ctor"] + A.compositions(n) + [("add", k) for k in range(0, n)]
+        return ["ctor", (1,) * n, (2, n - 2), (1, n - 1), ("add", 2), ("add", 0), ("pre", 1), ("pre", 3)]
+    return ["ctor"] + A.compositions(n) + [("add", k) for k in range(0, n)] + [("pre", k) for k in range(1, n)]
 
 
 def candles_view(candles):
@@ -69,6 +69,13 @@ def run_hexital(members, hcfg, raw, sched):
         hx = Hexital("h", fresh(raw), built, **kw)
         hx.calculate()
         return hx
+    if sched[0] == "pre":  # k candles at construction, the rest appended one at a time
+        k = sched[1]
+        hx = Hexital("h", fresh(raw[:k]), built, **kw)
+        hx.calculate()
+        for c in fresh(raw[k:]):
+            hx.append(c)
+        return hx
     if sched[0] == "add":
         k = sched[1]
         hx = Hexital("h", [], [], **kw)
@@ -101,6 +108,13 @@ def run_twin(cfg, member, raw, sched):
         tw = make(cfg, candles=fresh(raw), **kw)
         tw.calculate()
         return tw
+    if sched[0] == "pre":
+        k = sched[1]
+        tw = make(cfg, candles=fresh(raw[:k]), **kw)
+        tw.calculate()
+        for c in fresh(raw[k:]):
+            tw.append(c)
+        return tw
     if sched[0] == "add":
         k = sched[1]
         tw = make(cfg, candles=fresh(raw[:k]), **kw)
@@ -124,6 +138,7 @@ def explained_by_trimmed_source(cfg, member, raw, sched, life, got_c, got_r, hcf
     k = len(raw) if sched == "ctor" else sched[1]
     if k == 0:
         return False
+    kind = "ctor" if sched == "ctor" else sched[0]
     htf, hfill = hcfg[0], hcfg[1]
     keep = list(raw[:k])
     if htf:  # what a default manager with the Hexital-level settings retains, in raw (unconverted) form
@@ -132,7 +147,7 @@ def explained_by_trimmed_source(cfg, member, raw, sched, life, got_c, got_r, hcf
             keep = RC.fill(keep, A.tf_seconds(htf))
     keep = RC.trim(keep, life * 60)
     try:
-        tw = run_twin(cfg, member, keep + list(raw[k:]), "ctor" if sched == "ctor" else ("add", len(keep)))
+        tw = run_twin(cfg, member, keep + list(raw[k:]), "ctor" if kind == "ctor" else (kind, len(keep)))
     except Exception:
         return False
     return candles_view(tw.candles) == got_c and [cnum(x) for x in tw.as_list()] == got_r
@@ -176,7 +191,7 @@ def one(rep, members, hcfg, raw, sched, horizon):
         got_c, want_c = candles_view(m.candles), candles_view(tw.candles)
         got_r, want_r = [cnum(x) for x in m.as_list()], [cnum(x) for x in tw.as_list()]
         rep.add("states", (tuple(got_c), tuple(got_r)))
-        if ((got_c != want_c or got_r != want_r) and life and mtf and (sched == "ctor" or sched[0] == "add")
+        if ((got_c != want_c or got_r != want_r) and life and mtf and (sched == "ctor" or sched[0] in ("add", "pre"))
                 and explained_by_trimmed_source(cfg, m, raw, sched, life, got_c, got_r, hcfg)):
             # derived manager built from the already trimmed default candles: its oldest retained bucket(s) lack
             # the raw candles the default manager had dropped (known finding; precise differential characterisation)
@@ -232,8 +247,16 @@ def explore(item):
         for hcfg in [(None, False, None, None), ("T2", False, None, None), (None, False, None, "HA"), ("T2", True, None, None)]:
             for word in list(A.words("UD", n))[:: (2 if len(labels) == 2 else 4)]:
                 raw = raw_stream(word, "+", A.regular_gaps("reg", n, 120), "T2")
-                for sched in ("ctor", (1,) * n, (2, 2)):
+                for sched in ("ctor", (1,) * n, (2, 2), ("pre", 2)):
                     one(rep, members, hcfg, raw, sched, hz)
+        # gaps: every gap word over {same bucket, next bucket, skip one, 2.5 buckets}, with and without Hexital-level fill
+        if len(set(t for t in mtfs if t)) >= 2 and labels[0] in ("SMA2", "OBV", "ST2"):  # nested member timeframes
+            n5 = 5
+            for hcfg in [(None, True, None, None), (None, False, None, None)]:
+                for gaps in A.words("ht2x", n5 - 1):
+                    raw = raw_stream("UDJLU", "+", gaps, "T2")
+                    for sched in ("ctor", ("pre", 3)):
+                        one(rep, members, hcfg, raw, sched, hz)
         rep.sample({"members": labels, "member_tfs": mtfs})
     return rep
 
@@ -257,9 +280,9 @@ def main(prop, tier):
                 if cfg in PATTERNS and (form != "object" and mtf == "T4"):
                     continue
                 items.append((tier, "single", (cfg["label"], mtf, form)))
-    tfc2 = list(itertools.product(MEMBER_TFS, repeat=2)) + [("T2", "t2"), ("t2", "T2"), ("t4", "T2")]  # spelling variants share a manager
+    tfc2 = list(itertools.product(MEMBER_TFS, repeat=2)) + [("T2", "t2"), ("t2", "T2"), ("t4", "T2"), ("S120", "S120"), ("S240", "T4")]  # spelling variants share a manager
     for a, b in itertools.permutations(POOL, 2):
-        for mt in tfc2 if tier != "quick" else tfc2[::2] + tfc2[-3:]:
+        for mt in tfc2 if tier != "quick" else tfc2[::2] + tfc2[-5:]:
             items.append((tier, "set", ((a, b), mt)))
     tfc3 = [(None, None, None), (None, "T2", "T4"), ("T2", "T2", None), ("T4", None, "T2"), ("T2", None, "t2")]
     trip = list(itertools.permutations(POOL, 3))
